@@ -132,18 +132,20 @@ func hostCond(r *vlib.PRNG, idx int, perm []int) runDesc {
 // makeRuns builds the K runs of a case: half under family A, half under B;
 // B's first run is the natural schedule (no injected delays), all others use
 // PRNG delays with a seed of their own; raceRuns of them use the -race build.
-func makeRuns(r *vlib.PRNG, k, raceRuns int, repeat bool) []runDesc {
-	return makeRunsSplit(r, k, k/2, raceRuns, repeat)
+func makeRuns(r *vlib.PRNG, k, raceRuns, reps int) []runDesc {
+	return makeRunsSplit(r, k, k/2, raceRuns, reps)
 }
 
 // makeRunsSplit: the first nA of the k runs are family A.
-func makeRunsSplit(r *vlib.PRNG, k, nA, raceRuns int, repeat bool) []runDesc {
+// The k fresh-process runs are followed by one more family-A child that
+// executes the simulation reps times in one process.
+func makeRunsSplit(r *vlib.PRNG, k, nA, raceRuns, reps int) []runDesc {
 	perm := r.Perm(len(gomaxprocsPool))
 	runs := make([]runDesc, 0, k)
 	racePick := r.Perm(k)
 	isRace := map[int]bool{}
-	for _, i := range racePick { // the -race build is ~10x slower: not on the runs that execute the program twice
-		if len(isRace) < raceRuns && !(repeat && i < nA && i%2 == 1) {
+	for _, i := range racePick {
+		if len(isRace) < raceRuns {
 			isRace[i] = true
 		}
 	}
@@ -152,13 +154,17 @@ func makeRunsSplit(r *vlib.PRNG, k, nA, raceRuns int, repeat bool) []runDesc {
 		if i < nA {
 			h.Family = "A"
 			h.Delays = true
-			h.Repeat = repeat && i%2 == 1
 		} else {
 			h.Family = "B"
 			h.Delays = i != nA
 		}
 		h.DelaySeed = r.Uint64()
 		h.Race = isRace[i]
+		runs = append(runs, h)
+	}
+	if reps > 1 {
+		h := hostCond(r, k, perm) // plain build: the -race build is ~10x slower and this child runs the program reps times
+		h.Family, h.Delays, h.DelaySeed, h.Reps = "A", true, r.Uint64(), reps
 		runs = append(runs, h)
 	}
 	return runs
@@ -230,7 +236,7 @@ func genCase(r *vlib.PRNG, round, slot int) caseDesc {
 		c.GPUs = []int{1, 2}
 	case 4: // generated program of many tiny kernels
 		c.Workload = "tinykernels"
-		c.Params = map[string]int{"kernels": r.Range(24, 42), "elems": pick(r, 128, 256, 512), "big_elems": pick(r, 8192, 16384),
+		c.Params = map[string]int{"kernels": r.Range(20, 32), "elems": pick(r, 128, 256, 512), "big_elems": pick(r, 8192, 16384),
 			"concurrent": r.Range(6, 10), "seed": r.Intn(1 << 20)}
 		if round%2 == 0 {
 			c.GPUs = []int{1, 2}
@@ -277,7 +283,7 @@ func genCase(r *vlib.PRNG, round, slot int) caseDesc {
 // canonicalCases do not depend on the seed. The first one is the program of
 // the design-phase spike (200 x (4 KiB H2D, D2H) from one goroutine on the
 // default r9nano timing platform).
-func canonicalCases() []caseRuns {
+func canonicalCases(reps int) []caseRuns {
 	c := caseDesc{Name: "canon-copyloop-200x4KiB-r9nano", Workload: "copyloop", Params: map[string]int{"n": 200, "bytes": 4096},
 		Timing: true, GPUs: []int{1}, RandSeed: 1}
 	runs := []runDesc{
@@ -288,6 +294,7 @@ func canonicalCases() []caseRuns {
 		{Family: "B", Delays: true, DelaySeed: 0xC05B1, GOMAXPROCS: 4, GOGC: "10"},
 		{Family: "B", Delays: true, DelaySeed: 0xC05B2, GOMAXPROCS: 2, GOGC: "off"},
 	}
+	runs = append(runs, runDesc{Family: "A", Delays: true, DelaySeed: 0xC05A5, GOMAXPROCS: 4, GOGC: "100", Reps: reps})
 	if runtime.NumCPU() < 2 {
 		runs[1].CPUs = ""
 	}
@@ -300,14 +307,16 @@ func canonicalCases() []caseRuns {
 		{Family: "A", Delays: true, DelaySeed: 0xC05A3, GOMAXPROCS: 2, GOGC: "10"},
 		{Family: "A", Delays: true, DelaySeed: 0xC05A4, GOMAXPROCS: 4, GOGC: "off"},
 	}
-	for i := 0; i < 6; i++ {
+	for i := 0; i < 5; i++ {
 		runs2 = append(runs2, runDesc{Family: "B", Delays: true, DelaySeed: 0xC05B10 + uint64(i), GOMAXPROCS: gomaxprocsPool[i%4], GOGC: "100"})
 	}
+	runs2 = append(runs2, runDesc{Family: "A", Delays: true, DelaySeed: 0xC05A6, GOMAXPROCS: 2, GOGC: "100", Reps: reps})
 	return []caseRuns{{Case: c, Runs: runs, Canonical: true}, {Case: c2, Runs: runs2, Canonical: true}}
 }
 
 func buildCases(c *vlib.Check) (cases []caseRuns, par []caseRuns) {
-	cases = canonicalCases()
+	reps := c.N(2, 3)
+	cases = canonicalCases(reps)
 	base := c.Rand("cases")
 	rounds := c.N(1, 5)
 	k := c.N(4, 8)
@@ -316,11 +325,11 @@ func buildCases(c *vlib.Check) (cases []caseRuns, par []caseRuns) {
 		for slot := 0; slot < 7; slot++ {
 			r := base.ForkN(fmt.Sprintf("round%d", round), slot)
 			cd := genCase(r, round, slot)
-			runs := makeRuns(r.Fork("runs"), k, race, slot == 0 || slot == 1 || slot == 4)
+			runs := makeRuns(r.Fork("runs"), k, race, reps)
 			if slot == 6 {
 				// the member order of a unified device is decided once per process:
 				// more runs, most of them judged bit for bit
-				runs = makeRunsSplit(r.Fork("runs"), k+2, k/2+2, race, false)
+				runs = makeRunsSplit(r.Fork("runs"), k+2, k/2+2, race, reps)
 			}
 			cases = append(cases, caseRuns{Case: cd, Runs: runs})
 		}
@@ -416,14 +425,9 @@ func diffExamples(d metricDiff, only []string, max int) []map[string]any {
 	return out
 }
 
-// sameBuffers: process ids are part of the digest unless one of the two runs
-// is a second run inside one process (its contexts get the next process ids).
-func sameBuffers(a, b runRecord) bool {
-	if a.Job.Run.Repeat != b.Job.Run.Repeat {
-		return a.Res.BufDigestNoPID == b.Res.BufDigestNoPID
-	}
-	return a.Res.BufDigest == b.Res.BufDigest
-}
+// sameBuffers compares the buffer digests of two first-in-process executions
+// (process ids are part of the digest).
+func sameBuffers(a, b runRecord) bool { return a.Res.BufDigest == b.Res.BufDigest }
 
 func bufDiff(a, b childResult) string {
 	if len(a.Buffers) != len(b.Buffers) {
@@ -491,8 +495,8 @@ func (j *judge) judgeCase(cr caseRuns, recs []runRecord, serialRef *runRecord) {
 		if r.CPUs != "" {
 			c.Count("runs_taskset_pinned", 1)
 		}
-		if r.Repeat {
-			c.Count("runs_second_in_same_process", 1)
+		if r.Reps > 1 {
+			c.Count("runs_with_in_process_repetitions", 1)
 		}
 		if r.Delays {
 			c.Count("runs_with_injected_delays", 1)
@@ -519,6 +523,13 @@ func (j *judge) judgeCase(cr caseRuns, recs []runRecord, serialRef *runRecord) {
 		c.Distinct("gomaxprocs", strconv.Itoa(r.GOMAXPROCS))
 		c.Distinct("workload", cr.Case.Workload)
 		c.Distinct("platform", fmt.Sprintf("%s|%s|gpus=%v|unified=%v", cr.Case.GPUType, cr.Case.Arch, cr.Case.GPUs, cr.Case.Unified))
+	}
+
+	// ---- repetitions inside one process: repetition k against repetition 1 ----
+	for _, rr := range ok {
+		if rr.Job.Run.Reps > 1 {
+			j.judgeRepetitions(cr, rr)
+		}
 	}
 
 	// ---- parallel engine: buffers only ----
@@ -669,6 +680,75 @@ func prefixed(whats []string) []string {
 	return out
 }
 
+// judgeRepetitions compares the 2nd.. execution of a simulation inside one
+// process with the first execution in that process (which itself is compared
+// with the fresh-process runs of the case like every family-A run). Every
+// execution builds its own runner.Runner / simulation / engine and writes its
+// own sqlite file, so engine times are absolute and metric rows are
+// attributed to their repetition by file.
+func (j *judge) judgeRepetitions(cr caseRuns, rr runRecord) {
+	c := j.c
+	const pre = "C05|in-process-repetition|"
+	first := rr
+	wit := func(k int, other repRecord, extra map[string]any) map[string]any {
+		o := rr
+		o.Res, o.NumRows = other.Res, len(other.Metrics)
+		w := j.witness(cr, first, o, extra)
+		w["repetition"] = k + 1
+		w["compared_with"] = "repetition 1 of the same process"
+		return w
+	}
+	if rr.RepFail != "" {
+		c.Violation(pre+"crash|"+crashClass(rr.RepFail),
+			fmt.Sprintf("case %s: the first execution of the simulation in a process completed, a later one in the same process did not: %s", cr.Case.Name, firstLineOf(rr.RepFail)),
+			map[string]any{"case": cr.Case, "runs": cr.Runs, "run": rr.Job.Run, "output_tail": rr.RepFail})
+	}
+	for k, rp := range rr.Reps {
+		if !first.Res.Quiescent || !rp.Res.Quiescent {
+			c.Count("in_process_repetitions_not_quiescent_not_judged", 1)
+			continue
+		}
+		c.Count("in_process_repetition_pairs_compared", 1)
+		c.Count("metric_rows_compared", int64(len(first.Metrics)))
+		if rp.Res.Handoffs >= 10 && len(rp.Metrics) >= 100 {
+			c.Nontrivial(fmt.Sprintf("%s|%s|repetition%d", cr.Case.Name, rr.Job.Run.hostKey(), k+2))
+		}
+		if first.Res.BufDigestNoPID != rp.Res.BufDigestNoPID {
+			c.Violation(pre+"buffer", fmt.Sprintf("case %s: final device memory of execution %d inside one process differs from execution 1: %s", cr.Case.Name, k+2, bufDiff(first.Res, rp.Res)),
+				wit(k+1, rp, nil))
+		}
+		if first.Res.TimeRunBits != rp.Res.TimeRunBits || first.Res.TimeDumpBits != rp.Res.TimeDumpBits || first.Res.TimeEndBits != rp.Res.TimeEndBits {
+			c.Violation(pre+"engine-time", fmt.Sprintf("case %s: Engine.CurrentTime() of execution %d inside one process differs from execution 1 (after program %s vs %s, after read-back %s vs %s, end %s vs %s)",
+				cr.Case.Name, k+2, ftime(first.Res.TimeRunBits), ftime(rp.Res.TimeRunBits), ftime(first.Res.TimeDumpBits), ftime(rp.Res.TimeDumpBits), ftime(first.Res.TimeEndBits), ftime(rp.Res.TimeEndBits)),
+				wit(k+1, rp, nil))
+		}
+		d := diffMetrics(first.Metrics, rp.Metrics)
+		whats, rowSet := splitRowSet(sortedKeys(d.byWhat))
+		if len(rowSet) > 0 {
+			c.Violation(pre+"metric-row-set", fmt.Sprintf("case %s: execution %d inside one process reports a different set of mgpusim_metrics rows than execution 1 (by 'what': %v)", cr.Case.Name, k+2, rowSet),
+				wit(k+1, rp, map[string]any{"examples": diffExamples(d, prefixed(rowSet), 8)}))
+		}
+		for _, w := range whats {
+			key := pre + "metric|" + w
+			if w == "kernel_time" {
+				key = pre + "kernel-time"
+			}
+			c.Violation(key, fmt.Sprintf("case %s: %d rows of mgpusim_metrics '%s' of execution %d inside one process differ from execution 1", cr.Case.Name, d.byWhat[w], w, k+2),
+				wit(k+1, rp, map[string]any{"examples": diffExamples(d, []string{w}, 8)}))
+		}
+	}
+}
+
+func firstLineOf(s string) string {
+	if i := strings.IndexByte(s, '\n'); i >= 0 {
+		s = s[:i]
+	}
+	if len(s) > 200 {
+		s = s[:200]
+	}
+	return s
+}
+
 func sumYields(m map[string]int64) int64 {
 	var s int64
 	for _, v := range m {
@@ -719,7 +799,7 @@ func parentMain() {
 		cases, par = []caseRuns{*replay}, nil
 	}
 	if os.Getenv("C05_ONLY_CANONICAL") != "" {
-		cases, par = canonicalCases(), nil
+		cases, par = canonicalCases(c.N(2, 3)), nil
 	}
 	needRace := false
 	for _, cr := range cases {
@@ -807,6 +887,7 @@ func parentMain() {
 		"runs_completed": int64(c.N(20, 200)), "A_pairs_compared_bit_for_bit": int64(c.N(6, 80)), "B_pairs_compared_functionally": int64(c.N(8, 100)),
 		"metric_rows_compared": int64(c.N(5000, 100000)), "handoffs": int64(c.N(500, 5000)), "B_injections_into_running_engine": int64(c.N(20, 200)),
 		"runs_race_build": int64(c.N(3, 30)), "runs_taskset_pinned": int64(c.N(3, 30)), "parallel_engine_buffer_comparisons": int64(c.N(2, 10)),
+		"in_process_repetition_pairs_compared": int64(c.N(7, 60)),
 	}
 	if restricted { // a single case: only require that it was compared at all
 		minNT = 2
@@ -820,6 +901,7 @@ func parentMain() {
 			"differences of time-valued metrics and of memory-hierarchy event counters under B are reported under the two hand-off keys. " +
 			"distinct_nontrivial = distinct (case, host condition) pairs of completed runs with >= 10 application->engine hand-offs and >= 100 metric rows, compared against another run of the same case",
 		Assumptions: []string{
+			"in-process repetitions: one family-A child per case executes the simulation 2 (thorough: 3) times on a fresh runner.Runner each, flags parsed once, as amd/tests/deterministic does; execution k is compared with execution 1 of that process (buffers without process ids, absolute engine times of the per-simulation engine, every metric row of the per-simulation sqlite file), execution 1 with the fresh-process runs",
 			"one application goroutine per simulation (runner.Run with one benchmark); serial engine except in the parallel-engine comparison, where only buffers are compared",
 			"identical inputs: //go:debug randseednop=0 + rand.Seed(case seed) in every child; fresh process per run",
 			"only Engine.CurrentTime(), the rows (location, what, value, unit) of mgpusim_metrics and the live device buffers are compared; wall-clock fields, ids and exec_info are not",
